@@ -13,6 +13,10 @@ type IndividualNode struct {
 	families                      FamilyNodes
 	spouses                       []*IndividualNode
 	cachedUniqueIDs               *StringSet
+
+	// The Document.familyLinksVersion that families and spouses were
+	// calculated under.
+	familiesVersion, spousesVersion int
 }
 
 // SpouseChildren connects a single spouse to a set of children. The children
@@ -28,7 +32,7 @@ type SpouseChildren map[*IndividualNode]ChildNodes
 func newIndividualNode(document *Document, pointer string, children ...Node) *IndividualNode {
 	return &IndividualNode{
 		newSimpleDocumentNode(document, TagIndividual, "", pointer, children...),
-		false, false, nil, nil, nil,
+		false, false, nil, nil, nil, 0, 0,
 	}
 }
 
@@ -82,13 +86,14 @@ func (node *IndividualNode) Spouses() (spouses IndividualNodes) {
 		return nil
 	}
 
-	if node.cachedSpouses {
+	if node.cachedSpouses && node.spousesVersion == node.document.familyLinksVersion {
 		return node.spouses
 	}
 
 	defer func() {
 		node.spouses = spouses
 		node.cachedSpouses = true
+		node.spousesVersion = node.document.familyLinksVersion
 	}()
 
 	spouses = IndividualNodes{}
@@ -123,13 +128,14 @@ func (node *IndividualNode) Families() (families FamilyNodes) {
 		return nil
 	}
 
-	if node.cachedFamilies {
+	if node.cachedFamilies && node.familiesVersion == node.document.familyLinksVersion {
 		return node.families
 	}
 
 	defer func() {
 		node.families = families
 		node.cachedFamilies = true
+		node.familiesVersion = node.document.familyLinksVersion
 	}()
 
 	families = FamilyNodes{}
